@@ -72,6 +72,8 @@ Definition norm_index (n : Z) (v : option Z) (dflt lo hi : Z) : Z :=
   | Some z => let z := if z <? 0 then z + n else z in if z <? lo then lo else if hi <? z then hi else z
   end.
 
+Definition opt_in32 (v : option Z) : bool := match v with Some z => in_int32 z | None => true end.
+
 Definition slice_sel (n : Z) (lo hi : option Z) (k : Z) : Z * Z :=
   if 0 <? k then
     let s := norm_index n lo 0 0 n in let e := norm_index n hi n 0 n in
